@@ -272,7 +272,12 @@ class WebSocketFrame(object):
 
     def writeData(self, socket):
 
-        socket.sendall(self.payload)
+        payload = self.payload
+        if self.flags.mask:
+            # the mask bit announces that the payload is masked with the key
+            payload = bytes(b ^ self.masking_key[i%4] for i, b in enumerate(payload))
+
+        socket.sendall(payload)
 
     def __repr__(self):
         opcode = self.flags.opcode.name
